@@ -48,7 +48,10 @@ def showEvent : Event → String
 
 def windowOf (b : CB) : String :=
   if b.cap = 0 then "" else
-  " ".intercalate ((List.range b.size).map fun i => showSlot b ((b.start + i) % b.cap))
+  let slot := fun i => showSlot b ((b.start + i) % b.cap)
+  if b.size ≤ 2048 then " ".intercalate ((List.range b.size).map slot)
+  else " ".intercalate ((List.range 4).map slot ++ ["..."] ++
+    (List.range 4).map (fun k => slot (b.size - 4 + k)))
 
 def parseNat (s : String) : Option Nat := s.toNat?
 
